@@ -579,7 +579,7 @@ def enum_regimes(tier, seed):
     for T in ([70, 140] if tier == "quick" else [66, 70, 130, 140, 300]):
         for sl in (True, False):
             yield dict(kind="hops", T=T, sample_lists=sl)
-    for scale in ("ulp", "huge", "tiny"):
+    for scale in ("ulp", "huge", "tiny", "ulp_odd"):
         for sl in (True, False):
             yield dict(kind="coords", scale=scale, sample_lists=sl)
 
@@ -602,28 +602,9 @@ def run_regimes(case, ctx):
                ["seek_index", 0], ["seek_index", 70 if T > 70 else T - 1], ["seek_index", 3], ["copy", 0],
                ["seek_index", T - 2], ["seek_index", T // 3]]
     else:
-        if case["scale"] == "ulp":
-            a = 1.0
-            b = math.nextafter(a, math.inf)
-            bps = [0.0, a, b, math.nextafter(b, math.inf), 2.0]
-        elif case["scale"] == "huge":
-            a = 0.95e308
-            b = math.nextafter(a, math.inf)
-            bps = [0.0, 0.5e308, a, b, 1.7e308]
-        else:
-            a = 5e-324
-            bps = [0.0, a, 2 * a, 1e-300, 1.0]
-        n = len(bps)
-        nodes = [[1, 0.0, -1, -1, ""], [1, 0.0, -1, -1, ""], [1, 0.0, -1, -1, ""]] + [[0, 1.0 + i, -1, -1, ""] for i in range(n)]
-        edges = []
-        for i in range(n - 1):
-            p_ = 3 + i
-            edges.append([bps[i], bps[i + 1], p_, 0, ""])
-            edges.append([bps[i], bps[i + 1], p_, 1 + (i % 2), ""])
-        times = [nd[1] for nd in nodes]
-        edges.sort(key=lambda e: (times[e[2]], e[2], e[3], e[0]))
-        spec = dict(L=bps[-1], nodes=nodes, edges=edges, sites=[], mutations=[], individuals=[], populations=[],
-                    migrations=[])
+        from ._shapes import coord_regime_spec
+
+        spec = coord_regime_spec(case["scale"])
         ops = [["seek_index", 1], ["seek_index", 2], ["seek_index", 3], ["seek_index", 0], ["last"], ["seek_index", 1],
                ["prev"], ["next"], ["next"], ["clear"], ["seek_index", 2], ["seek_index", 1]]
     smp = model.samples(spec)
